@@ -129,3 +129,51 @@ def wrapper_forwarding(ck, clause, methods=("register", "reregister", "unregiste
             bad = T.t2_all_exits(b, [0], [cs.bb for cs in same]) if same else [0]
             ck.verdict(ok and recv_ok and bad is None, clause, "T8-sibling-agreement", b, "forwards:%s->%s" % (m, m), "the wrapper forwards %s to its inner source's %s on every path and calls no other registration method" % (m, m), "the wrapper's %s %s" % (m, ("calls %s of its inner source" % sorted({c.name for c in other})) if other else ("does not forward to the inner source's %s on every path" % m)), site=b.where())
     return n
+
+
+def closure_captures(parent, closure):
+    """capture name -> (parent local or None, access path set) for a closure created in parent"""
+    out = {}
+    names = [c["name"] for c in closure.raw.get("captures", [])]
+    for i, j, st in parent.statements():
+        if st["s"] == "assign" and st["rv"]["r"] == "agg" and st["rv"].get("def") == closure.key:
+            for n, op in zip(names, st["rv"]["fields"]):
+                loc = None
+                pl = op_place(op)
+                if pl is not None and not pl["p"]:
+                    ds = parent.defs().get(pl["l"], [])
+                    if len(ds) == 1 and ds[0][0] == "assign" and ds[0][3]["rv"]["r"] == "ref" and not ds[0][3]["rv"]["pl"]["p"]:
+                        loc = ds[0][3]["rv"]["pl"]["l"]
+                out[n] = (loc, parent.resolve(op), (i, j))
+    return out
+
+
+def lower_bound(body, op, depth=0):
+    """a sound lower bound (unsigned) of an integer operand, following saturating_add / min /
+    constants; unknown values have lower bound 0"""
+    k = op.get("k")
+    if k is not None:
+        v = k.get("v")
+        return v if isinstance(v, int) and v >= 0 else 0
+    pl = op_place(op)
+    if pl is None or pl["p"] or depth > 10:
+        return 0
+    defs = body.defs().get(pl["l"], [])
+    if len(defs) != 1:
+        return 0
+    d = defs[0]
+    if d[0] == "assign":
+        rv = d[3]["rv"]
+        if rv["r"] in ("use", "cast"):
+            return lower_bound(body, rv["o"], depth + 1)
+        if rv["r"] == "bin" and rv["op"] in ("Add", "AddUnchecked", "AddWithOverflow"):
+            return lower_bound(body, rv["a"], depth + 1) + lower_bound(body, rv["b"], depth + 1)
+        return 0
+    cs = body.call_at(d[1])
+    if cs.name in ("saturating_add", "wrapping_add") and cs.name == "saturating_add":
+        return lower_bound(body, cs.args[0], depth + 1) + lower_bound(body, cs.args[1], depth + 1)
+    if cs.name == "min":
+        return min(lower_bound(body, cs.args[0], depth + 1), lower_bound(body, cs.args[1], depth + 1))
+    if cs.name == "max":
+        return max(lower_bound(body, cs.args[0], depth + 1), lower_bound(body, cs.args[1], depth + 1))
+    return 0
